@@ -1,1 +1,653 @@
-(* C06 stub: to be written *)
+(* C06 -- proofs about Model/Exchange.v.
+   Part 1: ring-level algebra (any scalar instance): sums, matrix-vector associativity, the
+           affine action  M |-> A (M - Meq) + Meq,  exchange_matrix, guards.
+   Part 2: over Coquelicot's C: the Bloch-McConnell ODE, semigroup, zero exchange, conservation,
+           under the ORACLE predicate [is_expm] (the matrix exponential itself is LAPACK code).
+   Part 3: the two-pool closed form satisfies [is_expm] -- no hypotheses. *)
+From Coq Require Import List ZArith Lia Bool Arith Reals Lra Ring.
+From Coquelicot Require Import Coquelicot.
+From EPG Require Import Scalar State CInst Evolution CDeriv CoefPhys Exchange.
+Import ListNotations.
+
+(* ================================================================ Part 1 *)
+Local Open Scope nat_scope.
+Section Generic.
+Variable S : ScalOps.
+Hypothesis L : ScalLaws S.
+Add Ring Kr : (k_ring S L).
+
+Lemma ksum_ext n (f g : nat -> S) : (forall i, (i < n)%nat -> f i = g i) -> ksum n f = ksum n g.
+Proof.
+  induction n as [|n IH]; intros H; simpl; [reflexivity|].
+  rewrite (IH (fun i Hi => H i (Nat.lt_lt_succ_r _ _ Hi))), (H n (Nat.lt_succ_diag_r n)). reflexivity.
+Qed.
+Lemma ksum_0 n : ksum n (fun _ => @k0 S) = k0.
+Proof. induction n as [|n IH]; simpl; [reflexivity|]. rewrite IH. ring. Qed.
+Lemma ksum_add n (f g : nat -> S) : ksum n (fun i => f i + g i)%K = (ksum n f + ksum n g)%K.
+Proof. induction n as [|n IH]; simpl; [ring|]. rewrite IH. ring. Qed.
+Lemma ksum_scale_l n c (f : nat -> S) : ksum n (fun i => c * f i)%K = (c * ksum n f)%K.
+Proof. induction n as [|n IH]; simpl; [ring|]. rewrite IH. ring. Qed.
+Lemma ksum_scale_r n c (f : nat -> S) : ksum n (fun i => f i * c)%K = (ksum n f * c)%K.
+Proof. induction n as [|n IH]; simpl; [ring|]. rewrite IH. ring. Qed.
+Lemma ksum_opp n (f : nat -> S) : ksum n (fun i => - f i)%K = (- ksum n f)%K.
+Proof. induction n as [|n IH]; simpl; [ring|]. rewrite IH. ring. Qed.
+Lemma ksum_swap n m (f : nat -> nat -> S) :
+  ksum n (fun i => ksum m (fun j => f i j)) = ksum m (fun j => ksum n (fun i => f i j)).
+Proof.
+  induction n as [|n IH]; simpl.
+  - symmetry. apply ksum_0.
+  - rewrite IH. rewrite <- ksum_add. reflexivity.
+Qed.
+Lemma ksum_single n (f : nat -> S) j : (j < n)%nat -> (forall i, (i < n)%nat -> i <> j -> f i = k0) ->
+  ksum n f = f j.
+Proof.
+  induction n as [|n IH]; intros Hj Hz; [lia|]. simpl.
+  destruct (Nat.eq_dec j n) as [->|Hne].
+  - rewrite (ksum_ext n f (fun _ => k0)), ksum_0; [ring|]. intros i Hi. apply Hz; lia.
+  - rewrite IH; [|lia|intros i Hi Hd; apply Hz; lia]. rewrite (Hz n); [ring|lia|lia].
+Qed.
+Lemma ksum_conj n (f : nat -> S) : kconj (ksum n f) = ksum n (fun i => kconj (f i)).
+Proof.
+  induction n as [|n IH]; simpl; [apply (conj_0 S L)|]. rewrite (conj_add S L), IH. reflexivity.
+Qed.
+Lemma ksum_const n (c : S) : ksum n (fun _ => c) = (knat n * c)%K.
+Proof. induction n as [|n IH]; simpl; [ring|]. rewrite IH. ring. Qed.
+
+Lemma delta_refl i : @delta S i i = k1.
+Proof. unfold delta. now rewrite Nat.eqb_refl. Qed.
+Lemma delta_neq i j : i <> j -> @delta S i j = k0.
+Proof. unfold delta. intros H. apply Nat.eqb_neq in H. now rewrite H. Qed.
+Lemma delta_sym i j : @delta S i j = delta j i.
+Proof. unfold delta. now rewrite Nat.eqb_sym. Qed.
+
+Lemma ksum_delta_col n j : (j < n)%nat -> ksum n (fun i => @delta S i j) = k1.
+Proof.
+  intros Hj. rewrite (ksum_single n _ j Hj); [apply delta_refl|]. intros i _ Hd. now apply delta_neq.
+Qed.
+
+(* matrix . (matrix . vector) *)
+Lemma mvN_assoc n (A B : matN S) (v : nat -> S) i :
+  mvN n A (mvN n B v) i = mvN n (mmulN n A B) v i.
+Proof.
+  unfold mvN, mmulN.
+  transitivity (ksum n (fun j => ksum n (fun l => A i j * (B j l * v l))%K)).
+  - apply ksum_ext; intros j _. symmetry. apply ksum_scale_l.
+  - rewrite ksum_swap. apply ksum_ext; intros l _.
+    rewrite <- ksum_scale_r. apply ksum_ext; intros j _. ring.
+Qed.
+
+(* the affine action of X._apply on one component of one phase state *)
+Definition aff (n : nat) (A : matN S) (x e : nat -> S) : nat -> S :=
+  fun i => (ksum n (fun j => A i j * (x j - e j)) + e i)%K.
+
+Lemma x_apply_fibre_fp n MT MC ML st eq i k :
+  fp (x_apply_fibre n MT MC ML st eq i k) = aff n MT (fun j => fp (st j k)) (fun j => fp (eq j k)) i.
+Proof. reflexivity. Qed.
+Lemma x_apply_fibre_fm n MT MC ML st eq i k :
+  fm (x_apply_fibre n MT MC ML st eq i k) = aff n MC (fun j => fm (st j k)) (fun j => fm (eq j k)) i.
+Proof. reflexivity. Qed.
+Lemma x_apply_fibre_fz n MT MC ML st eq i k :
+  fz (x_apply_fibre n MT MC ML st eq i k) = aff n ML (fun j => fz (st j k)) (fun j => fz (eq j k)) i.
+Proof. reflexivity. Qed.
+
+Lemma triple_ext (a b : triple S) : fp a = fp b -> fm a = fm b -> fz a = fz b -> a = b.
+Proof. destruct a, b; simpl; intros; subst; reflexivity. Qed.
+
+Lemma aff_ext n (A B : matN S) x e i :
+  (forall j, (j < n)%nat -> A i j = B i j) -> aff n A x e i = aff n B x e i.
+Proof. intros H. unfold aff. f_equal. apply ksum_ext. intros j Hj. now rewrite H. Qed.
+
+Lemma aff_ext_x n (A : matN S) x y e i :
+  (forall j, (j < n)%nat -> x j = y j) -> aff n A x e i = aff n A y e i.
+Proof. intros H. unfold aff. f_equal. apply ksum_ext. intros j Hj. now rewrite H. Qed.
+
+Lemma aff_fixed n (A : matN S) e i : aff n A e e i = e i.
+Proof.
+  unfold aff. rewrite (ksum_ext n _ (fun _ => k0)), ksum_0; [ring|]. intros j _. ring.
+Qed.
+
+Lemma aff_compose n (A B : matN S) x e i :
+  aff n A (aff n B x e) e i = aff n (mmulN n A B) x e i.
+Proof.
+  unfold aff. f_equal.
+  transitivity (mvN n A (mvN n B (fun l => x l - e l)%K) i).
+  - unfold mvN. apply ksum_ext; intros j _. f_equal. ring.
+  - apply mvN_assoc.
+Qed.
+
+Lemma aff_rhs n (A E : matN S) x e i :
+  ksum n (fun l => A i l * (aff n E x e l - e l))%K = ksum n (fun j => mmulN n A E i j * (x j - e j))%K.
+Proof.
+  transitivity (mvN n A (mvN n E (fun l => x l - e l)%K) i).
+  - unfold mvN, aff. apply ksum_ext; intros j _. f_equal. ring.
+  - apply mvN_assoc.
+Qed.
+
+Lemma aff_diag n (c : nat -> S) x e i : (i < n)%nat ->
+  aff n (fun i j => c i * delta i j)%K x e i = (c i * (x i - e i) + e i)%K.
+Proof.
+  intros Hi. unfold aff. f_equal.
+  rewrite (ksum_single n _ i Hi).
+  - rewrite delta_refl. ring.
+  - intros j _ Hd. rewrite delta_neq by congruence. ring.
+Qed.
+
+Lemma aff_id n x e i : (i < n)%nat -> aff n (@midN S) x e i = x i.
+Proof.
+  intros Hi. unfold aff, midN. rewrite (ksum_single n _ i Hi).
+  - rewrite delta_refl. ring.
+  - intros j _ Hd. rewrite delta_neq by congruence. ring.
+Qed.
+
+(* zero column sums => the total of A v vanishes *)
+Lemma colsum_zero_total n (A : matN S) (v : nat -> S) :
+  (forall l, (l < n)%nat -> colsum n A l = k0) -> ksum n (fun i => ksum n (fun l => A i l * v l)%K) = k0.
+Proof.
+  intros H. rewrite ksum_swap.
+  rewrite (ksum_ext n _ (fun _ => k0)); [apply ksum_0|].
+  intros l Hl. rewrite ksum_scale_r. unfold colsum in H. rewrite (H l Hl). ring.
+Qed.
+
+(* ---- fixed point and composition of X._apply on a fibre: no hypothesis on the matrices ---- *)
+Theorem x_fixed_point n (MT MC ML : matN S) (eq : fibre S) i k :
+  x_apply_fibre n MT MC ML eq eq i k = eq i k.
+Proof.
+  apply triple_ext; [rewrite x_apply_fibre_fp|rewrite x_apply_fibre_fm|rewrite x_apply_fibre_fz]; apply aff_fixed.
+Qed.
+
+Theorem x_compose n (AT AC AL BT BC BL : matN S) (st eq : fibre S) i k :
+  x_apply_fibre n AT AC AL (x_apply_fibre n BT BC BL st eq) eq i k =
+  x_apply_fibre n (mmulN n AT BT) (mmulN n AC BC) (mmulN n AL BL) st eq i k.
+Proof.
+  apply triple_ext.
+  - rewrite !x_apply_fibre_fp. rewrite <- aff_compose. reflexivity.
+  - rewrite !x_apply_fibre_fm. rewrite <- aff_compose. reflexivity.
+  - rewrite !x_apply_fibre_fz. rewrite <- aff_compose. reflexivity.
+Qed.
+
+(* ---- exchange_matrix ---- *)
+Variable inv : S -> S.
+
+Lemma knat_pred n : (0 < n)%nat -> @knat S n = (knat (n - 1) + k1)%K.
+Proof. destruct n; [lia|]. intros _. simpl. now rewrite Nat.sub_0_r. Qed.
+
+(* columns of the generated kinetic matrix sum to zero (also with densities) *)
+Theorem exchange_matrix_colsum k n dens j : (j < n)%nat ->
+  (knat (n - 1) * inv (knat (n - 1)))%K = @k1 S ->
+  colsum n (exchange_matrix S inv k n dens) j = k0.
+Proof.
+  intros Hj Hinv. unfold colsum, exchange_matrix, kron.
+  set (c := inv (knat (n - 1))) in *.
+  assert (E : ksum n (fun i => (delta i j + (delta i j - k1) * c)%K) = @k0 S).
+  { rewrite (ksum_ext n _ (fun i => (k1 + c) * delta i j + (- c))%K) by (intros; ring).
+    rewrite ksum_add, ksum_scale_l, ksum_delta_col, ksum_const by exact Hj.
+    rewrite (knat_pred n) by lia.
+    transitivity (k1 - knat (n - 1) * c)%K; [ring|]. rewrite Hinv. ring. }
+  destruct dens as [d|].
+  - rewrite (ksum_ext n _ (fun i => (k * inv (d j)) * (delta i j + (delta i j - k1) * c))%K) by (intros; ring).
+    rewrite ksum_scale_l, E. ring.
+  - rewrite ksum_scale_l, E. ring.
+Qed.
+
+(* without densities the matrix is symmetric; with densities it conserves them:  K . dens = 0 *)
+Theorem exchange_matrix_sym k n i j :
+  exchange_matrix S inv k n None i j = exchange_matrix S inv k n None j i.
+Proof. unfold exchange_matrix, kron. now rewrite (delta_sym i j). Qed.
+
+Theorem exchange_matrix_balance k n (d : nat -> S) i : (i < n)%nat ->
+  (knat (n - 1) * inv (knat (n - 1)))%K = @k1 S -> (forall j, (j < n)%nat -> (d j * inv (d j))%K = k1) ->
+  ksum n (fun j => exchange_matrix S inv k n (Some d) i j * d j)%K = k0.
+Proof.
+  intros Hi Hinv Hd.
+  rewrite (ksum_ext n _ (fun j => exchange_matrix S inv k n None j i)).
+  - exact (exchange_matrix_colsum k n None i Hi Hinv).
+  - intros j Hj. rewrite <- exchange_matrix_sym. unfold exchange_matrix, kron.
+    transitivity (k * (delta i j + (delta i j - k1) * inv (knat (n - 1))) * (d j * inv (d j)))%K; [ring|].
+    rewrite (Hd j Hj). ring.
+Qed.
+
+(* ---- generators: pure exchange, zero exchange ---- *)
+Variable twopii : S.
+
+Lemma xiT_pure khi i j : xiT S inv twopii khi (fun _ => None) (fun _ => k0) i j = moppN khi i j.
+Proof. unfold xiT, rateT, rate_inv, moppN. ring. Qed.
+Lemma xiL_pure khi i j : xiL S inv khi (fun _ => None) i j = moppN khi i j.
+Proof. unfold xiL, rateL, rate_inv, moppN. ring. Qed.
+Lemma xiT_zero khi T2 g i j : (forall a b, khi a b = k0) ->
+  xiT S inv twopii khi T2 g i j = (rateT S inv twopii (T2 i) (g i) * delta i j)%K.
+Proof. intros H. unfold xiT. rewrite H. ring. Qed.
+Lemma xiL_zero khi T1 i j : (forall a b, khi a b = k0) ->
+  xiL S inv khi T1 i j = (rateL S inv (T1 i) * delta i j)%K.
+Proof. intros H. unfold xiL. rewrite H. ring. Qed.
+
+Lemma colsum_mopp n (A : matN S) l : colsum n A l = k0 -> colsum n (moppN A) l = k0.
+Proof. unfold colsum, moppN. intros H. rewrite ksum_opp, H. ring. Qed.
+
+(* ---- guards ---- *)
+Lemma conservesb_spec n (khi : matN S) (dens : nat -> S) :
+  conservesb n khi dens = true <-> forall i, (i < n)%nat -> ksum n (fun j => khi i j * dens j)%K = k0.
+Proof.
+  unfold conservesb. rewrite forallb_forall. split.
+  - intros H i Hi. apply (keqb_eq S L). apply H. apply in_seq. lia.
+  - intros H i Hi. apply in_seq in Hi. apply (keqb_eq S L). apply H. lia.
+Qed.
+
+(* X._apply accepted the state  =>  khi . density = 0 on every fibre; i.e. a kinetic matrix that does not
+   conserve the state's equilibrium densities yields the error token *)
+Theorem x_apply_rejects (o : xop S) (s : smN S) sh d : x_apply S o s = XOk S sh d ->
+  forall b, In b (all_idx (set_at (x_ax S o) 1 (s_shape S s))) ->
+  forall i, (i < nth (x_ax S o) (x_shape S o) 0)%nat ->
+  ksum (nth (x_ax S o) (x_shape S o) 0) (fun j =>
+     get S (fst (x_khi S o)) (snd (x_khi S o))
+         (firstn (length (removelast (fst (x_khi S o)))) (set_at (x_ax S o) i b) ++ [j]) *
+     get S (s_shape S s) (s_dens S s) (set_at (x_ax S o) j b))%K = k0.
+Proof.
+  unfold x_apply. intros H b Hb i Hi.
+  match type of H with (if negb ?c then _ else _) = _ => destruct c eqn:Hc end; [|discriminate].
+  rewrite forallb_forall in Hc. specialize (Hc b Hb).
+  rewrite conservesb_spec in Hc. exact (Hc i Hi).
+Qed.
+
+Theorem x_apply_conserve_error (o : xop S) (s : smN S) :
+  forallb (fun b => conservesb (nth (x_ax S o) (x_shape S o) 0)
+     (fun i j => get S (fst (x_khi S o)) (snd (x_khi S o))
+         (firstn (length (removelast (fst (x_khi S o)))) (set_at (x_ax S o) i b) ++ [j]))
+     (fun j => get S (s_shape S s) (s_dens S s) (set_at (x_ax S o) j b)))
+     (all_idx (set_at (x_ax S o) 1 (s_shape S s))) = false ->
+  x_apply S o s = XErrConserve S.
+Proof. unfold x_apply. intros ->. reflexivity. Qed.
+
+(* the constructor accepted khi  =>  it is square along the axis and every column sums to zero *)
+Theorem x_guard_accepts khishape khi axis ax : x_guard S khishape khi axis = GOk ax ->
+  (2 <= length khishape)%nat /\ nth ax (removelast khishape) 0 = last khishape 0 /\
+  forall idx, In idx (all_idx (set_at ax 1 (removelast khishape))) ->
+  forall j, (j < last khishape 0)%nat ->
+    ksum (last khishape 0) (fun i => get S khishape khi (set_at ax i idx ++ [j])) = k0.
+Proof.
+  unfold x_guard.
+  destruct (length khishape <? 2) eqn:E1; [discriminate|].
+  apply Nat.ltb_ge in E1.
+  set (a := norm_axis (length (removelast khishape)) axis).
+  destruct (Nat.eqb (nth a (removelast khishape) 0) (last khishape 0)) eqn:E2; simpl; [|discriminate].
+  apply Nat.eqb_eq in E2.
+  match goal with |- (if ?c then _ else _) = _ -> _ => destruct c eqn:E3 end; [|discriminate].
+  intros H. injection H as <-. split; [exact E1|split; [exact E2|]].
+  intros idx Hidx j Hj. rewrite forallb_forall in E3. specialize (E3 idx Hidx).
+  rewrite forallb_forall in E3. apply (keqb_eq S L). apply E3. apply in_seq. lia.
+Qed.
+
+Theorem x_guard_rejects_nonsquare khishape khi axis : (2 <= length khishape)%nat ->
+  nth (norm_axis (length (removelast khishape)) axis) (removelast khishape) 0 <> last khishape 0 ->
+  x_guard S khishape khi axis = GErrSquare.
+Proof.
+  intros H1 H2. unfold x_guard.
+  destruct (length khishape <? 2) eqn:E1; [apply Nat.ltb_lt in E1; lia|].
+  apply Nat.eqb_neq in H2. now rewrite H2.
+Qed.
+
+End Generic.
+
+(* ================================================================ Part 2: complex numbers *)
+Local Open Scope R_scope.
+
+Definition twopii_C : C := (0, 2 * PI).
+Notation xiT_C := (xiT Cops Cinv twopii_C).
+Notation xiL_C := (xiL Cops Cinv).
+
+(* complex exponential *)
+Definition Cexp (z : C) : C := (exp (fst z) * cos (snd z), exp (fst z) * sin (snd z)).
+
+Lemma derC_plus_const f x l c : derC f x l -> derC (fun t => Cplus (f t) c) x l.
+Proof.
+  intros H. apply (derC_eq _ _ (Cplus l (RtoC 0))); [apply injective_projections; simpl; ring|].
+  exact (derC_plus f (fun _ => c) x l (RtoC 0) H (derC_const c x)).
+Qed.
+
+Lemma derC_scal_r f x l c : derC f x l -> derC (fun t => Cmult (f t) c) x (Cmult l c).
+Proof.
+  intros H. apply (derC_eq _ _ (Cplus (Cmult l c) (Cmult (f x) (RtoC 0)))); [apply injective_projections; simpl; ring|].
+  exact (derC_mult f (fun _ => c) x l (RtoC 0) H (derC_const c x)).
+Qed.
+
+Lemma derC_conj f x l : derC f x l -> derC (fun t => Cconj (f t)) x (Cconj l).
+Proof.
+  intros [H1 H2]. split; simpl.
+  - exact H1.
+  - apply (is_derive_opp (fun t => snd (f t)) x (snd l)). exact H2.
+Qed.
+
+Lemma derC_ksum n (f : nat -> R -> C) x (l : nat -> C) :
+  (forall j, (j < n)%nat -> derC (f j) x (l j)) ->
+  derC (fun t => @ksum Cops n (fun j => f j t)) x (@ksum Cops n l).
+Proof.
+  induction n as [|n IH]; intros H.
+  - simpl. exact (derC_const (RtoC 0) x).
+  - simpl.
+    exact (derC_plus (fun t => @ksum Cops n (fun j => f j t)) (f n) x (@ksum Cops n l) (l n)
+             (IH (fun j Hj => H j (Nat.lt_lt_succ_r _ _ Hj))) (H n (Nat.lt_succ_diag_r n))).
+Qed.
+
+(* ---- the ORACLE predicate: E is "t |-> exp(t A)" on the n x n block ---- *)
+Definition is_expm (n : nat) (A : matN Cops) (E : R -> matN Cops) : Prop :=
+  (forall i j, (i < n)%nat -> (j < n)%nat -> E 0 i j = @midN Cops i j) /\
+  (forall s t i j, (i < n)%nat -> (j < n)%nat -> E (s + t) i j = mmulN n (E s) (E t) i j) /\
+  (forall t i j, (i < n)%nat -> (j < n)%nat -> derC (fun u => E u i j) t (mmulN n A (E t) i j)).
+
+Lemma is_expm_ext n A B E : (forall i j, (i < n)%nat -> (j < n)%nat -> A i j = B i j) ->
+  is_expm n A E -> is_expm n B E.
+Proof.
+  intros HAB (H0 & Hs & Hd). split; [exact H0|split; [exact Hs|]].
+  intros t i j Hi Hj. apply (derC_eq _ _ (mmulN n A (E t) i j)); [|exact (Hd t i j Hi Hj)].
+  unfold mmulN. apply (ksum_ext Cops). intros l Hl. now rewrite (HAB i l Hi Hl).
+Qed.
+
+Lemma conj_delta i j : Cconj (@delta Cops i j) = @delta Cops i j.
+Proof. unfold delta. destruct (Nat.eqb i j); apply injective_projections; simpl; ring. Qed.
+
+Lemma conj_mmulN n (A B : matN Cops) i j :
+  Cconj (mmulN n A B i j) = mmulN n (conjN A) (conjN B) i j.
+Proof.
+  unfold mmulN, conjN. rewrite (ksum_conj Cops Claws). apply (ksum_ext Cops). intros l _.
+  exact (conj_mul Cops Claws (A i l) (B l j)).
+Qed.
+
+Lemma is_expm_conj n A E : is_expm n A E -> is_expm n (conjN A) (fun t => conjN (E t)).
+Proof.
+  intros (H0 & Hs & Hd). split; [|split].
+  - intros i j Hi Hj. unfold conjN. rewrite (H0 i j Hi Hj). apply conj_delta.
+  - intros s t i j Hi Hj. unfold conjN at 1. rewrite (Hs s t i j Hi Hj). apply conj_mmulN.
+  - intros t i j Hi Hj. unfold conjN at 1.
+    apply (derC_eq _ _ (Cconj (mmulN n A (E t) i j))); [apply conj_mmulN|].
+    exact (derC_conj (fun u => E u i j) t _ (Hd t i j Hi Hj)).
+Qed.
+
+(* ---- one block: M(t) = Meq + E(t) (M0 - Meq) solves  dM/dt = A (M - Meq) ---- *)
+Lemma block_ode n A E (m0 e : nat -> C) i tau : is_expm n A E -> (i < n)%nat ->
+  derC (fun t => aff Cops n (E t) m0 e i) tau
+       (@ksum Cops n (fun l => Cmult (A i l) (Cminus (aff Cops n (E tau) m0 e l) (e l)))).
+Proof.
+  intros (_ & _ & Hd) Hi.
+  apply (derC_eq _ _ (@ksum Cops n (fun j => Cmult (mmulN n A (E tau) i j) (Cminus (m0 j) (e j))))).
+  { symmetry. exact (aff_rhs Cops Claws n A (E tau) m0 e i). }
+  unfold aff.
+  apply (derC_plus_const (fun t => @ksum Cops n (fun j => Cmult (E t i j) (Cminus (m0 j) (e j)))) tau _ (e i)).
+  apply (derC_ksum n (fun j t => Cmult (E t i j) (Cminus (m0 j) (e j))) tau
+           (fun j => Cmult (mmulN n A (E tau) i j) (Cminus (m0 j) (e j)))).
+  intros j Hj.
+  exact (derC_scal_r (fun t => E t i j) tau _ (Cminus (m0 j) (e j)) (Hd tau i j Hi Hj)).
+Qed.
+
+Lemma block_init n A E (m0 e : nat -> C) i : is_expm n A E -> (i < n)%nat -> aff Cops n (E 0) m0 e i = m0 i.
+Proof.
+  intros (H0 & _ & _) Hi. rewrite (aff_ext Cops n (E 0) (@midN Cops) m0 e i).
+  - exact (aff_id Cops Claws n m0 e i Hi).
+  - intros j Hj. exact (H0 i j Hi Hj).
+Qed.
+
+Lemma block_semigroup n A E (m0 e : nat -> C) i t1 t2 : is_expm n A E -> (i < n)%nat ->
+  aff Cops n (E t2) (aff Cops n (E t1) m0 e) e i = aff Cops n (E (t1 + t2)) m0 e i.
+Proof.
+  intros (_ & Hs & _) Hi. rewrite (aff_compose Cops Claws). symmetry.
+  apply (aff_ext Cops). intros j Hj. rewrite Rplus_comm. exact (Hs t2 t1 i j Hi Hj).
+Qed.
+
+(* zero column sums: the total over the compartments has zero derivative *)
+Lemma block_conserves n A E (m0 e : nat -> C) tau : is_expm n A E ->
+  (forall l, (l < n)%nat -> colsum n A l = RtoC 0) ->
+  derC (fun t => @ksum Cops n (fun i => aff Cops n (E t) m0 e i)) tau (RtoC 0).
+Proof.
+  intros HE Hc.
+  apply (derC_eq _ _ (@ksum Cops n (fun i => @ksum Cops n (fun l =>
+           Cmult (A i l) (Cminus (aff Cops n (E tau) m0 e l) (e l)))))).
+  { exact (colsum_zero_total Cops Claws n A (fun l => Cminus (aff Cops n (E tau) m0 e l) (e l)) Hc). }
+  apply (derC_ksum n (fun i t => aff Cops n (E t) m0 e i) tau).
+  intros i Hi. exact (block_ode n A E m0 e i tau HE Hi).
+Qed.
+
+(* a C-valued function of a real variable with zero derivative everywhere is constant *)
+Lemma zero_derive_const (f : R -> R) : (forall x, is_derive f x 0) -> forall a b, f a = f b.
+Proof.
+  intros H.
+  assert (pr : derivable f).
+  { intros x. exists 0. apply is_derive_Reals. exact (H x). }
+  assert (Hz : forall x, derive_pt f x (pr x) = 0).
+  { intros x. apply derive_pt_eq_0. apply is_derive_Reals. exact (H x). }
+  exact (null_derivative_1 f pr Hz).
+Qed.
+
+Lemma zero_derC_const (f : R -> C) : (forall x, derC f x (RtoC 0)) -> forall a b, f a = f b.
+Proof.
+  intros H a b. apply injective_projections.
+  - apply (zero_derive_const (fun t => fst (f t))). intros x. exact (proj1 (H x)).
+  - apply (zero_derive_const (fun t => snd (f t))). intros x. exact (proj2 (H x)).
+Qed.
+
+(* ---- the operator on a fibre, as a function of the mixing time ---- *)
+Definition X_fibre (n : nat) (ET EL : R -> matN Cops) (st eq : fibre Cops) (t : R) : fibre Cops :=
+  x_apply_fibre n (ET t) (conjN (ET t)) (EL t) st eq.
+
+Section Blocks.
+Variable n : nat.
+Variables khi : matN Cops.
+Variables T1 T2 : nat -> option C.
+Variable g : nat -> C.
+Variables ET EL : R -> matN Cops.
+Hypothesis HT : is_expm n (xiT_C khi T2 g) ET.
+Hypothesis HL : is_expm n (xiL_C khi T1) EL.
+Variables st eq : fibre Cops.
+
+Theorem X_solves_ode_blocks i k tau : (i < n)%nat ->
+  let M := X_fibre n ET EL st eq in
+  derC (fun t => fp (M t i k)) tau
+       (@ksum Cops n (fun l => Cmult (xiT_C khi T2 g i l) (Cminus (fp (M tau l k)) (fp (eq l k))))) /\
+  derC (fun t => fm (M t i k)) tau
+       (@ksum Cops n (fun l => Cmult (Cconj (xiT_C khi T2 g i l)) (Cminus (fm (M tau l k)) (fm (eq l k))))) /\
+  derC (fun t => fz (M t i k)) tau
+       (@ksum Cops n (fun l => Cmult (xiL_C khi T1 i l) (Cminus (fz (M tau l k)) (fz (eq l k))))).
+Proof.
+  intros Hi M. split; [|split].
+  - exact (block_ode n _ ET (fun j => fp (st j k)) (fun j => fp (eq j k)) i tau HT Hi).
+  - exact (block_ode n _ (fun t => conjN (ET t)) (fun j => fm (st j k)) (fun j => fm (eq j k)) i tau
+             (is_expm_conj n _ ET HT) Hi).
+  - exact (block_ode n _ EL (fun j => fz (st j k)) (fun j => fz (eq j k)) i tau HL Hi).
+Qed.
+
+Theorem X_initial_blocks i k : (i < n)%nat -> X_fibre n ET EL st eq 0 i k = st i k.
+Proof.
+  intros Hi. unfold X_fibre. apply (triple_ext Cops).
+  - rewrite x_apply_fibre_fp. exact (block_init n _ ET _ _ i HT Hi).
+  - rewrite x_apply_fibre_fm. exact (block_init n _ (fun t => conjN (ET t)) _ _ i (is_expm_conj n _ ET HT) Hi).
+  - rewrite x_apply_fibre_fz. exact (block_init n _ EL _ _ i HL Hi).
+Qed.
+
+Theorem X_semigroup_blocks i k t1 t2 : (i < n)%nat ->
+  X_fibre n ET EL (X_fibre n ET EL st eq t1) eq t2 i k = X_fibre n ET EL st eq (t1 + t2) i k.
+Proof.
+  intros Hi. unfold X_fibre. apply (triple_ext Cops).
+  - rewrite !x_apply_fibre_fp.
+    exact (block_semigroup n _ ET (fun j => fp (st j k)) (fun j => fp (eq j k)) i t1 t2 HT Hi).
+  - rewrite !x_apply_fibre_fm.
+    exact (block_semigroup n _ (fun t => conjN (ET t)) (fun j => fm (st j k)) (fun j => fm (eq j k)) i t1 t2
+             (is_expm_conj n _ ET HT) Hi).
+  - rewrite !x_apply_fibre_fz.
+    exact (block_semigroup n _ EL (fun j => fz (st j k)) (fun j => fz (eq j k)) i t1 t2 HL Hi).
+Qed.
+
+(* no relaxation, no precession, columns of khi sum to zero: the total magnetisation over the
+   compartments has zero derivative in tau, hence is constant, for each component and phase state *)
+Theorem X_conserves_total_blocks k :
+  (forall l, (l < n)%nat -> colsum n khi l = RtoC 0) ->
+  (forall i, T1 i = None) -> (forall i, T2 i = None) -> (forall i, g i = RtoC 0) ->
+  let M := X_fibre n ET EL st eq in
+  (forall tau, derC (fun t => @ksum Cops n (fun i => fp (M t i k))) tau (RtoC 0) /\
+               derC (fun t => @ksum Cops n (fun i => fm (M t i k))) tau (RtoC 0) /\
+               derC (fun t => @ksum Cops n (fun i => fz (M t i k))) tau (RtoC 0)) /\
+  (forall tau, @ksum Cops n (fun i => fp (M tau i k)) = @ksum Cops n (fun i => fp (st i k)) /\
+               @ksum Cops n (fun i => fm (M tau i k)) = @ksum Cops n (fun i => fm (st i k)) /\
+               @ksum Cops n (fun i => fz (M tau i k)) = @ksum Cops n (fun i => fz (st i k))).
+Proof.
+  intros Hc H1 H2 Hg M.
+  assert (CT : forall l, (l < n)%nat -> colsum n (xiT_C khi T2 g) l = RtoC 0).
+  { intros l Hl. unfold colsum.
+    rewrite (ksum_ext Cops n _ (fun i => moppN khi i l)).
+    - exact (colsum_mopp Cops Claws n khi l (Hc l Hl)).
+    - intros i _. unfold xiT, rateT, rate_inv, moppN. rewrite H2, Hg. cnorm.
+      apply injective_projections; simpl; ring. }
+  assert (CC : forall l, (l < n)%nat -> colsum n (conjN (xiT_C khi T2 g)) l = RtoC 0).
+  { intros l Hl. unfold colsum, conjN. rewrite <- (ksum_conj Cops Claws).
+    specialize (CT l Hl). unfold colsum in CT. rewrite CT. apply injective_projections; simpl; ring. }
+  assert (CL : forall l, (l < n)%nat -> colsum n (xiL_C khi T1) l = RtoC 0).
+  { intros l Hl. unfold colsum.
+    rewrite (ksum_ext Cops n _ (fun i => moppN khi i l)).
+    - exact (colsum_mopp Cops Claws n khi l (Hc l Hl)).
+    - intros i _. unfold xiL, rateL, rate_inv, moppN. rewrite H1. cnorm.
+      apply injective_projections; simpl; ring. }
+  assert (D : forall tau, derC (fun t => @ksum Cops n (fun i => fp (M t i k))) tau (RtoC 0) /\
+               derC (fun t => @ksum Cops n (fun i => fm (M t i k))) tau (RtoC 0) /\
+               derC (fun t => @ksum Cops n (fun i => fz (M t i k))) tau (RtoC 0)).
+  { intros tau. split; [|split].
+    - exact (block_conserves n _ ET (fun j => fp (st j k)) (fun j => fp (eq j k)) tau HT CT).
+    - exact (block_conserves n _ (fun t => conjN (ET t)) (fun j => fm (st j k)) (fun j => fm (eq j k)) tau
+               (is_expm_conj n _ ET HT) CC).
+    - exact (block_conserves n _ EL (fun j => fz (st j k)) (fun j => fz (eq j k)) tau HL CL). }
+  split; [exact D|].
+  intros tau.
+  assert (I : forall i, (i < n)%nat -> M 0 i k = st i k) by (intros i Hi; exact (X_initial_blocks i k Hi)).
+  split; [|split].
+  - rewrite (zero_derC_const (fun t => @ksum Cops n (fun i => fp (M t i k))) (fun x => proj1 (D x)) tau 0).
+    apply (ksum_ext Cops). intros i Hi. now rewrite (I i Hi).
+  - rewrite (zero_derC_const (fun t => @ksum Cops n (fun i => fm (M t i k))) (fun x => proj1 (proj2 (D x))) tau 0).
+    apply (ksum_ext Cops). intros i Hi. now rewrite (I i Hi).
+  - rewrite (zero_derC_const (fun t => @ksum Cops n (fun i => fz (M t i k))) (fun x => proj2 (proj2 (D x))) tau 0).
+    apply (ksum_ext Cops). intros i Hi. now rewrite (I i Hi).
+Qed.
+
+End Blocks.
+
+Lemma rateT_real t2 gg : t2 <> 0 ->
+  rateT Cops Cinv twopii_C (Some (RtoC t2)) (RtoC gg) = (- / t2, 2 * PI * gg).
+Proof.
+  intros H. unfold rateT, rate_inv, twopii_C. cnorm.
+  apply injective_projections; simpl; field; exact H.
+Qed.
+Lemma rateL_real t1 : t1 <> 0 -> rateL Cops Cinv (Some (RtoC t1)) = (- / t1, 0).
+Proof.
+  intros H. unfold rateL, rate_inv. cnorm.
+  apply injective_projections; simpl; field; exact H.
+Qed.
+Lemma Cexp_scal tau a b :
+  Cexp (Cmult (RtoC tau) (a, b)) = (exp (tau * a) * cos (tau * b), exp (tau * a) * sin (tau * b)).
+Proof.
+  unfold Cexp. simpl.
+  replace (tau * a - 0 * b) with (tau * a) by ring.
+  replace (tau * b + 0 * a) with (tau * b) by ring. reflexivity.
+Qed.
+
+(* ---- with the oracle as ONE function expm : matrix -> (t |-> exp(t A)) ---- *)
+Section Expm.
+Variable n : nat.
+Variable expm : matN Cops -> R -> matN Cops.
+(* H0 + Hsemi + Hder *)
+Hypothesis Hexpm : forall A, is_expm n A (expm A).
+(* expm depends only on the n x n block *)
+Hypothesis Hext : forall A B, (forall i j, (i < n)%nat -> (j < n)%nat -> A i j = B i j) ->
+  forall t i j, (i < n)%nat -> (j < n)%nat -> expm A t i j = expm B t i j.
+(* Hdiag: diagonal matrices exponentiate entry-wise *)
+Hypothesis Hdiag : forall (d : nat -> C) t i j, (i < n)%nat -> (j < n)%nat ->
+  expm (fun a b => Cmult (d a) (@delta Cops a b)) t i j = Cmult (Cexp (Cmult (RtoC t) (d i))) (@delta Cops i j).
+
+Variables khi : matN Cops.
+Variables T1 T2 : nat -> option C.
+Variable g : nat -> C.
+
+Definition X_op (st eq : fibre Cops) (tau : R) : fibre Cops :=
+  X_fibre n (expm (xiT_C khi T2 g)) (expm (xiL_C khi T1)) st eq tau.
+
+Theorem X_solves_ode st eq i k tau : (i < n)%nat ->
+  derC (fun t => fp (X_op st eq t i k)) tau
+       (@ksum Cops n (fun l => Cmult (xiT_C khi T2 g i l) (Cminus (fp (X_op st eq tau l k)) (fp (eq l k))))) /\
+  derC (fun t => fm (X_op st eq t i k)) tau
+       (@ksum Cops n (fun l => Cmult (Cconj (xiT_C khi T2 g i l)) (Cminus (fm (X_op st eq tau l k)) (fm (eq l k))))) /\
+  derC (fun t => fz (X_op st eq t i k)) tau
+       (@ksum Cops n (fun l => Cmult (xiL_C khi T1 i l) (Cminus (fz (X_op st eq tau l k)) (fz (eq l k))))).
+Proof. exact (X_solves_ode_blocks n khi T1 T2 g _ _ (Hexpm _) (Hexpm _) st eq i k tau). Qed.
+
+Theorem X_initial st eq i k : (i < n)%nat -> X_op st eq 0 i k = st i k.
+Proof. exact (X_initial_blocks n khi T1 T2 g _ _ (Hexpm _) (Hexpm _) st eq i k). Qed.
+
+Theorem X_fixed_point eq tau i k : X_op eq eq tau i k = eq i k.
+Proof. unfold X_op, X_fibre. apply (x_fixed_point Cops Claws). Qed.
+
+Theorem X_semigroup st eq i k t1 t2 : (i < n)%nat ->
+  X_op (X_op st eq t1) eq t2 i k = X_op st eq (t1 + t2) i k.
+Proof. exact (X_semigroup_blocks n khi T1 T2 g _ _ (Hexpm _) (Hexpm _) st eq i k t1 t2). Qed.
+
+Theorem X_conserves_total st eq k :
+  (forall l, (l < n)%nat -> colsum n khi l = RtoC 0) ->
+  (forall i, T1 i = None) -> (forall i, T2 i = None) -> (forall i, g i = RtoC 0) ->
+  forall tau, @ksum Cops n (fun i => fp (X_op st eq tau i k)) = @ksum Cops n (fun i => fp (st i k)) /\
+              @ksum Cops n (fun i => fm (X_op st eq tau i k)) = @ksum Cops n (fun i => fm (st i k)) /\
+              @ksum Cops n (fun i => fz (X_op st eq tau i k)) = @ksum Cops n (fun i => fz (st i k)).
+Proof.
+  intros Hc H1 H2 Hg.
+  exact (proj2 (X_conserves_total_blocks n khi T1 T2 g _ _ (Hexpm _) (Hexpm _) st eq k Hc H1 H2 Hg)).
+Qed.
+
+(* zero exchange: every compartment relaxes / precesses on its own *)
+Theorem X_zero_exchange st eq i k tau : (forall a b, khi a b = RtoC 0) -> (i < n)%nat ->
+  let eT := Cexp (Cmult (RtoC tau) (rateT Cops Cinv twopii_C (T2 i) (g i))) in
+  let eL := Cexp (Cmult (RtoC tau) (rateL Cops Cinv (T1 i))) in
+  X_op st eq tau i k =
+  @mk3 Cops (Cplus (Cmult eT (Cminus (fp (st i k)) (fp (eq i k)))) (fp (eq i k)))
+            (Cplus (Cmult (Cconj eT) (Cminus (fm (st i k)) (fm (eq i k)))) (fm (eq i k)))
+            (Cplus (Cmult eL (Cminus (fz (st i k)) (fz (eq i k)))) (fz (eq i k))).
+Proof.
+  intros Hk Hi eT eL.
+  assert (ET : forall j, (j < n)%nat -> expm (xiT_C khi T2 g) tau i j = Cmult eT (@delta Cops i j)).
+  { intros j Hj.
+    rewrite (Hext _ (fun a b => Cmult (rateT Cops Cinv twopii_C (T2 a) (g a)) (@delta Cops a b))).
+    - exact (Hdiag (fun a => rateT Cops Cinv twopii_C (T2 a) (g a)) tau i j Hi Hj).
+    - intros a b _ _. exact (xiT_zero Cops Claws Cinv twopii_C khi T2 g a b Hk).
+    - exact Hi.
+    - exact Hj. }
+  assert (EL : forall j, (j < n)%nat -> expm (xiL_C khi T1) tau i j = Cmult eL (@delta Cops i j)).
+  { intros j Hj.
+    rewrite (Hext _ (fun a b => Cmult (rateL Cops Cinv (T1 a)) (@delta Cops a b))).
+    - exact (Hdiag (fun a => rateL Cops Cinv (T1 a)) tau i j Hi Hj).
+    - intros a b _ _. exact (xiL_zero Cops Claws Cinv khi T1 a b Hk).
+    - exact Hi.
+    - exact Hj. }
+  unfold X_op, X_fibre. apply (triple_ext Cops); cbn [fp fm fz].
+  - rewrite x_apply_fibre_fp.
+    rewrite (aff_ext Cops n _ (fun a b => Cmult ((fun _ => eT) a) (@delta Cops a b)) _ _ i ET).
+    exact (aff_diag Cops Claws n (fun _ => eT) _ _ i Hi).
+  - rewrite x_apply_fibre_fm.
+    rewrite (aff_ext Cops n _ (fun a b => Cmult ((fun _ => Cconj eT) a) (@delta Cops a b)) _ _ i).
+    + exact (aff_diag Cops Claws n (fun _ => Cconj eT) _ _ i Hi).
+    + intros j Hj. unfold conjN. rewrite (ET j Hj).
+      rewrite <- (conj_delta i j) at 2. exact (conj_mul Cops Claws eT (@delta Cops i j)).
+  - rewrite x_apply_fibre_fz.
+    rewrite (aff_ext Cops n _ (fun a b => Cmult ((fun _ => eL) a) (@delta Cops a b)) _ _ i EL).
+    exact (aff_diag Cops Claws n (fun _ => eL) _ _ i Hi).
+Qed.
+
+(* ... and this is the E operator of the same compartment (generated coefficients of Gen/Evolution.v) *)
+Theorem X_zero_exchange_is_E st eq i k tau (t1 t2 gg : R) (pd : C) :
+  (forall a b, khi a b = RtoC 0) -> (i < n)%nat -> t1 <> 0 -> t2 <> 0 ->
+  T1 i = Some (RtoC t1) -> T2 i = Some (RtoC t2) -> g i = RtoC gg ->
+  eq i k = @mk3 Cops (RtoC 0) (RtoC 0) pd ->
+  X_op st eq tau i k = evolve (E_op tau t1 t2 gg) (st i k) pd.
+Proof.
+  intros Hk Hi Ht1 Ht2 E1 E2 Eg Eeq.
+  rewrite (X_zero_exchange st eq i k tau Hk Hi). rewrite E1, E2, Eg, Eeq.
+  rewrite (rateT_real t2 gg Ht2), (rateL_real t1 Ht1), !Cexp_scal.
+  destruct (st i k) as [[a b] [c d] [e f]]. destruct pd as [p q].
+  unfold evolve, E_op, relaxation_operator, tadd, sv, opt0.
+  cbn [fst snd fp fm fz]. cnorm.
+  replace (tau * - / t2) with (- (tau * (1 / t2))) by (field; exact Ht2).
+  replace (tau * - / t1) with (- (tau / t1)) by (field; exact Ht1).
+  rewrite ?Rmult_0_r, ?cos_0, ?sin_0, ?cos_neg, ?sin_neg.
+  apply (triple_ext Cops); cbn [fp fm fz]; apply injective_projections; simpl; ring.
+Qed.
+
+End Expm.
